@@ -333,6 +333,12 @@ PLANS["C14"] = dict(
         # complete also when the bundle is very large (sequential model of the cache: what is stored is what is read)
         dict(name="large-bundles", static_cases=crl_large_cases, drive=dict(driver="crl-seq", extra=lambda tier, seed: ["-workers", "2"]),
              validate=dict(module="Trace_CRLCacheSeq", cfg=C15_TRACE)),
+        # the trivial interleavings - store, read, store again, read again, by two cache objects on one directory whose file system
+        # keeps coarse time stamps, with entries that are all of one size: a read that starts after a store has returned yields that store
+        dict(name="sequential", gen=dict(module="MC_CRLCache_C15", cfg=lambda tier, seed: mc_cfg(["Inv_C15", "Inv_Emit"], consts=['URLs = {"u1", "u2"}', "Bundles <- MCBundlesSmall",
+                                                                                                                     'Corruptions = {"bitflip"}', "Depth = 4" if tier == "thorough" else "Depth = 3"]),
+                                       select=slicer2(6000, 60000)),
+             drive=dict(driver="crl-seq"), validate=dict(module="Trace_CRLCacheSeq", cfg=C15_TRACE)),
         # readers without pause against writers without pause (a few seconds, several hundred thousand reads): per-reader counts
         dict(name="hammer", drive=dict(driver="crl-hammer"), validate=dict(module="Trace_CRLHammer", cfg=trace_cfg(), recheck=False)),
         dict(name="free-running",
